@@ -8,7 +8,7 @@
    theorems.json). *)
 From Coq Require Import SpecFloat.
 Require Import Base Value Float PrintOptions ParseOptions Reader Scan Num Parser DatumProofs DepthProofs.
-Require Import ReaderProofs TokenProofs RoundtripProofs TriviaProofs ElispRoundtrip ElispTrivia PositionProofs SpanProofs FuelProofs FloatFuel.
+Require Import ReaderProofs TokenProofs RoundtripProofs TriviaProofs ElispRoundtrip ElispTrivia PositionProofs SpanProofs FuelProofs FloatFuel CrossProofs SourcesAgree.
 
 (* value_iter().next() and Iterator for Parser are next_value().transpose(),
    datum_iter().next() is next_datum().transpose(): in the model these are
@@ -216,6 +216,18 @@ Proof.
   exact (C12_histories ro alpha fast std_parse (fuel_for inp) k inp cs (total_history ro alpha fast std_parse k inp cs)).
 Qed.
 Print Assumptions C12_histories_total.
+
+(* The ways of iterating agree across sources too: collecting items from a byte
+   slice and from a stream of the same bytes gives, item for item, the same
+   values and errors with the same code, for every option set and any bytes
+   (rpres eq: equal values; errors agree in their code, the position attached
+   to an error may differ between SliceRead and IoRead). *)
+Theorem C12_iterate_slice_stream : forall ro alpha fast std_parse (s : bytes) n,
+  Forall2 (rpres eq)
+    (iterate_values ro alpha fast std_parse (fuel_for (bytes_events s)) n (init_state SrcSlice (bytes_events s)))
+    (iterate_values ro alpha fast std_parse (fuel_for (bytes_events s)) n (init_state SrcIo (bytes_events s))).
+Proof. exact iterate_slice_stream. Qed.
+Print Assumptions C12_iterate_slice_stream.
 
 (* An unexpected closer is consumed when it is reported, so iteration moves on. *)
 Example C12_closer_consumed :
